@@ -17,7 +17,7 @@ Non-trivial = e yields >=1 value and the hole is not at top level, or e contains
         "a block directly inside another block shares that block's stack (pinned by test_meta_stack); nested blocks are generated self-contained",
     ],
     max_len: 300,
-    quick_cases: 40_000,
+    quick_cases: 120_000,
     thorough_cases: 1_500_000,
     case,
     systematic: None,
